@@ -40,7 +40,7 @@ CHECKS = {
    technique=TECH+"seeded operation histories vs in-memory reference tree with attributes, reopen-from-bytes"),
  "C05": dict(level="exploration", design="§5 C05",
    text="After Create with a seeded parameter set (block size, blocks per group, inode ratio/count, journal, 64bit, flex_bg, metadata_csum, sparse_super2; sizes with full and partial last groups) and after every operation of a seeded history, accepted or refused, the durable bytes of the volume are handed to the reference checker: e2fsck -f -n must exit 0; every fourth step and at the end debugfs rdump extracts the tree and files and link targets are compared with what was written.",
-   note="Seeded sampling; the oracle is an independent implementation (e2fsprogs 1.47.0). Two open known findings (sparse_super2, explicit blocks-per-group corner cases) are listed in known_findings.jsonl and drawn in a minority of runs.",
+   note="Seeded sampling; the oracle is an independent implementation (e2fsprogs 1.47.0). No open known finding is left: the sparse_super2 and explicit blocks-per-group defects that were listed earlier have been repaired (known_findings.jsonl, fixed entries).",
    technique=TECH+"seeded histories with e2fsck/debugfs (independent implementation) evaluated on the device bytes after every step"),
  "C11": dict(level="exploration", design="§5 C11",
    text="Images of every filesystem kind (whole device or inside a GPT/MBR partition) are attached read-only in four ways (backend whose Writable() fails, file.New(readOnly), file.OpenFromPath(readOnly), diskfs.Open(ReadOnly) on a real scratch file) and driven with seeded histories interleaving every public reading call with every public mutating call (Partition, WritePartitionContents, CreateFilesystem, Mkdir, OpenFile with write/create/append/truncate flags, Write, Rename, Remove, SetLabel, Chmod, Chown, Chtimes, Symlink); each mutating call must return an error, the simulated device must see zero WriteAt calls and an unchanged SHA-256; on a read-write attachment the reading calls alone must not write.",
